@@ -71,8 +71,48 @@ class C03(Prop):
             req = [x for x in rng.sample(names[:8], rng.randint(0, 6)) if x not in prov]
             big.append({'op': 'portsel.match', 'cfg': {'psts': sel(), 'pmts': sel(), 'rsts': sel(), 'rmts': sel()}, 'prov': prov, 'req': req})
         yield 'sampled', big
+        yield 'through-build', self.build_stream(rng, tier)
+
+    def build_stream(self, rng, tier):
+        """the same rules observed through Builder.build: valid selections (injected requires ports are
+        never named) must build and expose exactly the non-injected ports; selection faults must be
+        rejected with the configuration error and produce no files"""
+        from harness import gen_build as G
+        n = 60 if tier == 'quick' else 3000
+        out = []
+        sel_faults = ('unknown-port-name', 'provides-name-on-requires-side', 'named-under-both', 'all-with-names',
+                      'uncovered-requires-port', 'mixed-provides', 'uncovered-provides-port')
+        for i in range(n):
+            c = G.gen_case(rng, want_mc=False)
+            if i % 2 == 0:
+                # injected requires ports together with explicit-only selections (no wildcard): the
+                # injected port is never named and must not need a semantics
+                req_all = [p for p in c['_info']['ports'] if p['dir'] == 'requires']
+                if req_all:
+                    inj = req_all[0]
+                    inj['injected'] = True
+                    comp = G.find_elem(c['src'], lambda e: e['k'] in ('component', 'system'))
+                    for p in comp['ports']:
+                        if p['name'] == inj['name']:
+                            p['injected'] = True
+                    from harness import gen_models as M
+                    c['ast'] = M.enc_root(c['src'])
+                    rest = [p['name'] for p in req_all if not p['injected']]
+                    if rest:
+                        k = rng.randint(0, len(rest))
+                        a, b = rest[:k], rest[k:]
+                        c['cfg']['ports']['rsts'] = {'names': a} if a else {'w': 'none'}
+                        c['cfg']['ports']['rmts'] = {'names': b} if b else {'w': 'none'}
+                    else:
+                        c['cfg']['ports']['rsts'], c['cfg']['ports']['rmts'] = {'w': 'none'}, {'w': 'remaining'}
+            out.append({k: v for k, v in c.items() if k != '_info'})
+            out.extend(f for f in G.faults(rng, c) if f.get('fault') in sel_faults)
+        return out
 
     def impl(self, case):
+        if case['op'] == 'build':
+            from harness import gen_build as G
+            return G.build_impl(case)
         use_repo_src()
         try:
             cfg = mk_portscfg(case['cfg'])
@@ -81,10 +121,22 @@ class C03(Prop):
             return {'err': err_tag(e)}
         return {'ok': sorted([[k, v.name] for k, v in m.value.items()])}
 
+    def project(self, case, out):
+        if case['op'] == 'build' and isinstance(out, dict) and 'ok' in out:
+            # what C03 speaks about: which ports got an accessor, and of which strict-port type
+            import re
+            hh = out['ok']['files'][0]['contents']
+            return {'ok': sorted(re.findall(r'::(Sts|Mts)<[^>]*> ((?:Provides|Requires)\w+)\(', hh))}
+        return out
+
     def shape(self, case, impl_out):
+        if case['op'] == 'build':
+            return canon([case['src'], case['cfg']])
         return canon(case) if any('names' in v for v in case['cfg'].values()) else None
 
     def classify(self, case, impl_out):
+        if case['op'] == 'build':
+            return 'build:' + case.get('fault', 'valid') + '→' + impl_out.get('err', 'ok')
         return impl_out.get('err', 'ok:%d' % min(len(impl_out.get('ok', [])), 4))
 
 
